@@ -156,6 +156,8 @@ inline Geom gen_geometry(vrt::Rng &r, bool want_mesh, const GenParams &gp) {
       descs.push_back(d);
     }
   }
+  // the POSITION attribute is not always the first attribute
+  if (descs.size() > 1 && r.coin(1, 4)) std::swap(descs[0], descs[r.range(1, (int)descs.size() - 1)]);
   for (auto &d : descs) {
     const int id = add_attribute(pc, d, np);
     PointAttribute *att = pc->attribute(id);
@@ -208,6 +210,42 @@ inline Geom small_mesh(const std::vector<int> &pos_ids, const std::vector<int> &
     const int aid = add_attribute(m, a, nc);
     for (int v = 0; v < natt; ++v) { int32_t x = 100 + v; m->attribute(aid)->SetAttributeValue(AttributeValueIndex(v), &x); }
     for (int c = 0; c < nc; ++c) m->attribute(aid)->SetPointMapEntry(PointIndex(c), AttributeValueIndex(att_ids[c]));
+  }
+  for (int f = 0; f < nc / 3; ++f) {
+    Mesh::Face fc;
+    for (int k = 0; k < 3; ++k) fc[k] = PointIndex(3 * f + k);
+    m->AddFace(fc);
+  }
+  m->DeduplicatePointIds();
+  return g;
+}
+
+
+// mesh given per CORNER: position ids and any number of extra per-corner attributes (value ids); one point per corner, then
+// DeduplicatePointIds.  pos_slot = index at which the POSITION attribute is added among the attributes (0 = first).
+inline Geom corner_mesh(const std::vector<int> &pos_ids, const std::vector<std::vector<int>> &extra, int npos, int nvals, int pos_slot) {
+  Geom g;
+  g.is_mesh = true;
+  g.pc.reset(new Mesh());
+  Mesh *m = g.mesh();
+  const int nc = (int)pos_ids.size();
+  m->set_num_points(nc);
+  const int natt = 1 + (int)extra.size();
+  int e = 0;
+  for (int slot = 0; slot < natt; ++slot) {
+    if (slot == std::min(pos_slot, natt - 1)) {
+      AttDesc p{GeometryAttribute::POSITION, DT_INT32, 3, false, false, npos};
+      const int pid = add_attribute(m, p, nc);
+      for (int v = 0; v < npos; ++v) { int32_t xyz[3] = {v * 7 + 1, v * v * 3, (v * 11) % 5}; m->attribute(pid)->SetAttributeValue(AttributeValueIndex(v), xyz); }
+      for (int c = 0; c < nc; ++c) m->attribute(pid)->SetPointMapEntry(PointIndex(c), AttributeValueIndex(pos_ids[c]));
+    } else {
+      static const GeometryAttribute::Type types[] = {GeometryAttribute::GENERIC, GeometryAttribute::TEX_COORD, GeometryAttribute::COLOR};
+      AttDesc a{types[e % 3], DT_INT32, (e % 3) == 1 ? 2 : 1, false, false, nvals};
+      const int aid = add_attribute(m, a, nc);
+      for (int v = 0; v < nvals; ++v) { int32_t x[2] = {100 * (e + 1) + v, v}; m->attribute(aid)->SetAttributeValue(AttributeValueIndex(v), x); }
+      for (int c = 0; c < nc; ++c) m->attribute(aid)->SetPointMapEntry(PointIndex(c), AttributeValueIndex(extra[e][c]));
+      ++e;
+    }
   }
   for (int f = 0; f < nc / 3; ++f) {
     Mesh::Face fc;
